@@ -32,7 +32,9 @@ ITEM_PATTERNS = [[], ["s"], ["L"], ["s", "L"], ["L", "s"], ["i", "c", "d"], ["L"
                  # x: a value whose inserter leaves the statement's stream in the failed state
                  ["s", "x", "L", "s"], ["x", "L", "L"], ["L", "x", "s"],
                  # M: a callable with a non-const call operator which could also be printed as a value
-                 ["M"], ["s", "M", "L"], ["M", "M", "d"]]
+                 ["M"], ["s", "M", "L"], ["M", "M", "d"],
+                 # T: a callable that changes the runtime threshold while the statement is being evaluated
+                 ["s", "T", "L", "s"], ["T", "T"], ["L", "T", "i"]]
 
 
 def mk_items(pattern, base):
@@ -50,6 +52,9 @@ def mk_items(pattern, base):
             out.append(item("d", ["1.5", "-0.25", "100", "0"][(base + k) % 4]))
         elif kind == "x":
             out.append(item("x", ""))
+        elif kind == "T":
+            # a callable that sets threshold 0 (to 0..5) when it is called
+            out.append(item("L", "tz%d" % k, 900 + (base + k) % 6))
         elif kind == "M":
             out.append(item("M", "mz%d" % k, 10 * (base % 7) + k))
         else:
@@ -125,7 +130,7 @@ def gen_log(ptag, tier, rng):
                               rng.choice([sa, (sa + 1) % 6]), rng.choice([None, "b"]),
                               mk_items([rng.choice("sLd") for _ in range(rng.below(4))], rng.below(1000))))
             else:
-                pat = [rng.choice("ssLLicdpM") for _ in range(rng.below(6))]
+                pat = [rng.choice("ssLLicdpMT") for _ in range(rng.below(6))]
                 n = len(pat)
                 form = rng.choice(["e", "ue"] + ["n%d" % k for k in range(n + 1)] + ["un%d" % k for k in range(n + 1)])
                 one = st(rng.below(6), rng.choice([None, "t", "T", "tag two", ""]), form, mk_items(pat, rng.below(1000)))
